@@ -54,3 +54,14 @@ func (s *State) AssetInstances() []*odalpb.AssetInstance {
 	}
 	return assetInstances
 }
+
+// RemoveAssetInstanceUnless removes the asset instance of the given entity
+// unless keep reports true; keep is called with the asset instances locked.
+func (s *State) RemoveAssetInstanceUnless(entityID uint32, keep func() bool) {
+	s.assetMutex.Lock()
+	defer s.assetMutex.Unlock()
+
+	if !keep() {
+		delete(s.assetInstances, entityID)
+	}
+}
